@@ -848,6 +848,14 @@ def d12_json_trial_before_open(chk: Check) -> None:
     fi = prog.func("Merger.prepare_for_dump")
     trial = [c for c in walk_local(fi.node) if isinstance(c, ast.Call) and
              src(c.func) in ("json.dump", "json.dumps")]
+    if not trial:
+        # ... or the writer itself serialises before its first open()
+        w0 = prog.func("yaml_merge.write_output_document")
+        opens0 = [c.lineno for c in walk_local(w0.node)
+                  if isinstance(c, ast.Call) and src(c.func) == "open"]
+        trial = [c for c in walk_local(w0.node) if isinstance(c, ast.Call)
+                 and src(c.func) in ("json.dump", "json.dumps") and opens0
+                 and c.lineno < min(opens0)]
     if trial:
         chk.ok("C17-D12", fi, trial[0], "prepare_for_dump: JSON trial",
                src(trial[0])[:60])
